@@ -1080,7 +1080,7 @@ func (c *Client) call(
 	}
 	callCtx, cancel := context.WithTimeout(ctx, timeout)
 	defer cancel()
-	err := c.rpc.Load().CallWithContext(ctx, method, args, resp)
+	err := c.rpc.Load().CallWithContext(callCtx, method, args, resp)
 	if ctx.Err() != nil {
 		return false // expired
 	}
